@@ -29,6 +29,16 @@ LEVEL = {
         "design_ref": "5.20", "note": "domain restricted to what the property quantifies over: base aligned to /p, x >= base",
         "technique": "property-based differential testing (rapid) against math/big + native go fuzzing",
     },
+    "C08": {
+        "text": "Randomised model-based exploration of DHCPv6 message histories (many clients, IA_PD/hint shapes incl. wire-only encodings, relayed, concurrent phase) through the handler returned by prefix.Plugin.Setup6, each reply checked by a validity predicate and an owner table.",
+        "design_ref": "5.8", "note": "trusts the codec library for parsing replies; allocation policy not asserted",
+        "technique": "stateful property-based testing (rapid): validity predicate + owner-table model",
+    },
+    "C09": {
+        "text": "Randomised model-based exploration of renewal/retransmission histories; the model is the set of prefixes each client was told it holds, evaluated before every message.",
+        "design_ref": "5.9", "note": "assertions limited to the request shapes the statement names (exact, hint-less, retransmission of such)",
+        "technique": "stateful property-based testing (rapid) against a held-set model",
+    },
 }
 
 NOT_APPLICABLE = [
@@ -39,6 +49,8 @@ NOT_APPLICABLE = [
 ENGINES = [
     {"name": "alloc", "path": "harness/alloc", "serves_properties": ["C04", "C05", "C06", "C07", "C20"],
      "kind_free_text": "rapid state-machine style histories over the two bitmap allocators against a set model; math/big differential for the prefix arithmetic"},
+    {"name": "pd6", "path": "harness/pd6", "serves_properties": ["C08", "C09"],
+     "kind_free_text": "DHCPv6 prefix-delegation message histories (wire-built requests) through prefix.Plugin.Setup6 against an owner table and held sets"},
 ]
 
 NOTES = "One driver (./check <ID> [--tier quick|thorough] [--replay file]); all randomness from rapid seeded by VERIF_SEED; evidence is merged from per-shard measurements; known_findings.json lists fixed and open findings (open ones print KNOWN-FINDING and exit 0)."
